@@ -9,8 +9,8 @@ UNIVERSAL_ASSUME = [
 CHECKS = {
     "C01": dict(
         level="exploration",
-        rule="every string of the stated families (token soups over the 154-token alphabet in 12 contexts, "
-             "all strings over the 47-char alphabet up to the bound) x fixed configuration set, each run through "
+        rule="every string of the stated families (token soups over the 155-token alphabet in 12 contexts, "
+             "all strings over the 54-char alphabet up to the bound) x fixed configuration set, each run through "
              "Formatter::format; cases are distinct by construction (injective enumerators); non-trivial = the "
              "formatter changed the text",
         bounds={"quick": "soup(k<=2, 5 gaps, 12 contexts) x 6 configs; chars(<=3) x 2 configs",
@@ -35,7 +35,7 @@ CHECKS = {
     ),
     "C13": dict(
         level="model_checking",
-        rule="every string over the 47-char alphabet up to the bound plus all soup texts, lexed by DelphiLexer and by "
+        rule="every string over the 54-char alphabet up to the bound plus all soup texts, lexed by DelphiLexer and by "
              "the reference scanner R (the model); structural clauses checked on the lexer output, boundaries and kinds "
              "compared token by token; non-trivial = more than the end-of-file token",
         bounds={"quick": "chars(<=4); soup(k<=2) texts", "thorough": "chars(<=5); soup(k<=2) texts"},
